@@ -21,7 +21,7 @@ ASSUMPTIONS = [
 ]
 MONITORS = "closure(dest) evaluated at every intermediate destination state via FaultyFS.after_put / audit hook, plus end-state and retry checks"
 REQUIRED_COUNTERS = [
-    "rounds", "states_observed", "rounds_with_failures", "shared_file_failure_rounds", "retries", "rounds_with_index",
+    "index_history_rounds", "source_vanish_rounds", "rounds", "states_observed", "rounds_with_failures", "shared_file_failure_rounds", "retries", "rounds_with_index",
     "dirs_withheld", "exhaustive_scenarios", "crash_children",
 ]
 EXHAUSTIVE = {"quick": False, "thorough": False}
@@ -142,6 +142,86 @@ def run_shard(ctx):
                     res.violation("dir-present-without-its-files/after-retry", "closure broken after retry", case=case, detail={"probs": probs[:3]})
                 if index is not None:
                     index.close()
+            # ---- a history sharing one destination index: push A, the remote loses A (and A's files), push B which shares a file with A
+            pairs = [(a, b) for a in sc.trees for b in sc.trees if a is not b and set(a["listing"].values()) & set(b["listing"].values())]
+            if pairs and not ctx.out_of_time():
+                A, B = rng.choice(pairs)
+                wipe(sc.dest_root)
+                sc.dest = sc._mk_dest()
+                index = ObjectDBIndex(os.path.join(d, "idx-history"), "dest")
+                res.evaluated()
+                res.count("index_history_rounds")
+
+                def req(t):
+                    return {t["hi"]} | {env.HI("md5", v) for v in t["listing"].values()}
+
+                _transfer(sc, req(A), True, jobs, index)
+                for o in [A["oid"], *set(A["listing"].values())]:
+                    pth = sc.dest_path(o)
+                    if os.path.exists(pth):
+                        os.chmod(pth, 0o644)
+                        os.unlink(pth)
+                viol2 = []
+
+                def on_state2():
+                    probs, _n = closure_of(sc)
+                    viol2.extend(probs)
+
+                with UploadFaults(sc, frozenset(), on_state2) as uf2:
+                    rB = _transfer(sc, req(B), True, jobs, index)
+                res.count("states_observed", uf2.states)
+                afterB = dest_objects(sc)
+                res.nontrivial(scen_sig, "index-history", A["oid"], B["oid"])
+                if viol2:
+                    res.violation("dir-present-without-its-files/stale-index-trusted",
+                                  f"after the remote lost {A['oid']} and its files, pushing {B['oid']} with the same index left it without {viol2[0][1][:2]}",
+                                  case=case, detail={"A": A["listing"], "B": B["listing"], "dest": sc.dest_kind})
+                elif B["oid"] in afterB and any(v not in afterB for v in B["listing"].values()):
+                    res.violation("dir-present-without-its-files/stale-index-trusted", "directory present, listed file absent (end state)", case=case)
+                elif any(o not in afterB for o in [B["oid"], *B["listing"].values()]) and not rB.failed:
+                    res.violation("retry-incomplete/stale-index-trusted", "fault-free push through a stale index left the directory incomplete and reported no failure",
+                                  case=case, detail={"A": A["listing"], "B": B["listing"]})
+                index.close()
+
+            # ---- source objects that vanish between the status query and their upload (last: it damages the source)
+            if not ctx.out_of_time():
+                wipe(sc.dest_root)
+                sc.dest = sc._mk_dest()
+                vanish = {o for o in file_oids if rng.random() < 0.3} or set(file_oids[:1])
+                res.evaluated()
+                res.count("source_vanish_rounds")
+
+                def vanish_now(_status):
+                    for o in vanish:
+                        pth = sc.src_path(o)
+                        if os.path.exists(pth):
+                            os.chmod(pth, 0o644)
+                            os.unlink(pth)
+
+                viol3 = []
+
+                def on_state3():
+                    probs, _n = closure_of(sc)
+                    viol3.extend(probs)
+
+                with UploadFaults(sc, frozenset(), on_state3) as uf3:
+                    r3 = _transfer(sc, ids, shallow, jobs, None, validate_status=vanish_now)
+                res.count("states_observed", uf3.states)
+                after3 = dest_objects(sc)
+                res.nontrivial(scen_sig, "source-vanish", sorted(vanish))
+                failed3 = {h.value for h in r3.failed}
+                if viol3:
+                    res.violation("dir-present-without-its-files/source-object-vanished",
+                                  f"a source object vanished before its upload; directory {viol3[0][0]} was uploaded without {viol3[0][1][:2]}",
+                                  case=case, detail={"vanished": sorted(vanish), "dest": sc.dest_kind})
+                for doid, t in dirs.items():
+                    if set(t["listing"].values()) & vanish and not all(v in after3 for v in t["listing"].values()):
+                        if doid in after3:
+                            res.violation("dir-present-without-its-files/source-object-vanished", f"{doid} present at the end", case=case)
+                        elif doid not in failed3:
+                            res.violation("dir-with-undelivered-file-not-reported-failed/source-object-vanished",
+                                          f"{doid} could not be completed (source object vanished) but is not in result.failed", case=case,
+                                          detail={"vanished": sorted(vanish)})
             env.reset_staging()
             ctx.drop(d)
 
